@@ -102,10 +102,11 @@ void Memory::write8(uint32_t address, uint8_t data) { g_nwrites++; CANARY("the r
 #elif READER == 7 || READER == 9
 #include "core/Symbols.h"
 /* strcmp/strncmp contracts: an arbitrary result (the section-name tests only select which sections are loaded) */
-extern "C" { int g_cmp[4]; }   /* result per compared literal (".strtab", ".vectors", ".data", other), redrawn for every name read */
+extern "C" { int g_cmp[4]; int g_ncmp[4]; }   /* results per compared literal (".strtab", ".vectors", ".data", other), redrawn for every name read */
 static int cmp_slot(const char *b) { return b[1] == 's' ? 0 : b[1] == 'v' ? 1 : b[1] == 'd' ? 2 : 3; }
+/* strcmp (whole string) and strncmp (prefix) are separate, repeatable results: equal strings have equal prefixes, not conversely */
 extern "C" int strcmp(const char *a, const char *b) { return g_cmp[cmp_slot(b)]; }
-extern "C" int strncmp(const char *a, const char *b, size_t n) { return g_cmp[cmp_slot(b)]; }
+extern "C" int strncmp(const char *a, const char *b, size_t n) { return g_ncmp[cmp_slot(b)]; }
 Symbols::Symbols() {} Symbols::~Symbols() {}
 /* Symbols::append contract: the name must be a NUL-terminated string inside the reader's 128-byte buffer */
 extern "C" { const char *g_str_buf; int g_str_nul; }   /* ghost witness: where the last name was NUL terminated */
@@ -134,7 +135,10 @@ static int vs_get_string(char *data, int length, uint64_t offset)
   /* READER 9 (Mach-O): the buffer content is kept abstract (only the ghost witness is set): the name buffer is a
      local of the command loop's body, which DFCC's assigns-clause inclusion check for the nested symbol loop rejects */
   g_str_buf = data; g_str_nul = length - 1;
-  g_cmp[0] = (nondet_int)(); g_cmp[1] = (nondet_int)(); g_cmp[2] = (nondet_int)(); g_cmp[3] = (nondet_int)();
+  g_cmp[0] = (nondet_int)(); g_ncmp[0] = (nondet_int)(); ASSUME(g_cmp[0] != 0 || g_ncmp[0] == 0);
+  g_cmp[1] = (nondet_int)(); g_ncmp[1] = (nondet_int)(); ASSUME(g_cmp[1] != 0 || g_ncmp[1] == 0);
+  g_cmp[2] = (nondet_int)(); g_ncmp[2] = (nondet_int)(); ASSUME(g_cmp[2] != 0 || g_ncmp[2] == 0);
+  g_cmp[3] = (nondet_int)(); g_ncmp[3] = (nondet_int)(); ASSUME(g_cmp[3] != 0 || g_ncmp[3] == 0);
   return 0;
 }
 #define get_string_at_offset(d, l, o) tell(), vs_get_string(d, l, o)
